@@ -215,9 +215,11 @@ def lexStep (fuel : Nat) : LState → LexSt σ → LState × LexSt σ
       if isAlphaNumR r then invalidSyntax P { l with s := P.unbackup s }
       else (.start, emit P .STR { l with s := s })
 
-/-- `lexer.run`: iterate state functions until one returns `nil`. -/
+/-- `lexer.run`: iterate state functions until one returns `nil`.  The step budget is
+never used up on real inputs (every state function consumes input or ends the run); if it
+were, the token list would say so. -/
 def lexRun (fuel : Nat) : Nat → LState → LexSt σ → LexSt σ
-  | 0, _, l => l
+  | 0, _, l => { l with toks := { typ := .ERR, err := str "lexer model out of fuel" } :: l.toks }
   | n+1, st, l =>
     match lexStep P fuel st l with
     | (.done, l') => l'
